@@ -11,6 +11,8 @@
 From Asynq Require Import Machine Seq proofs.ProgProofs proofs.MachineFrame proofs.MachineC05 proofs.MachineC08
      proofs.MachineC01 proofs.MachineDFS.
 
+From Coq Require Import Permutation.
+
 Definition Sset := fid -> Prop.
 
 Definition uncomputed (s : st) (d : fid) : Prop := computed d s = false.
@@ -363,10 +365,24 @@ Qed.
 Lemma S_ok_alloc S s d : S_ok S s d -> get d s <> None.
 Proof. intros [(tk & Hg & _)|(kind & idx & key & a & Hg)]; rewrite Hg; discriminate. Qed.
 
-Lemma pass_ok_frame root S t s s' :
-  pass_ok root S (Some t) s -> In t (tasks s) -> frame_t t s s' -> pass_ok root S (Some t) s'.
+(* what the pass invariant needs of a transition made while t runs (t's own dependencies may change) *)
+Definition frame_w (t : fid) (s s' : st) : Prop :=
+  tasks s' = tasks s /\
+  (forall d, get d s <> None -> get d s' <> None) /\
+  (forall d, computed d s = true -> computed d s' = true) /\
+  (forall h, h <> t -> get h s <> None -> get h s' = get h s) /\
+  (forall u tk, u <> t -> get u s = None -> get u s' = Some (mkFut None (KTask tk)) -> tk_deps tk = []).
+
+Lemma frame_t_w t s s' : frame_t t s s' -> frame_w t s s'.
 Proof.
-  intros [K1 K2 K3 K4 K5 K6 K7 K8] Hin (Ft & Fd & Fo). pose proof Fd as (Dom & Mono & New).
+  intros (Ft & (Dom & Mono & New) & Fo). split; [exact Ft|]. split; [exact Dom|]. split; [exact Mono|]. split; [exact Fo|].
+  intros u tk _ Hn Hg. destruct (New u None tk Hg) as [(_ & E & _)|(o & tk0 & Hg0 & _)]; [exact E|congruence].
+Qed.
+
+Lemma pass_ok_frame_w root S t s s' :
+  pass_ok root S (Some t) s -> In t (tasks s) -> frame_w t s s' -> pass_ok root S (Some t) s'.
+Proof.
+  intros [K1 K2 K3 K4 K5 K6 K7 K8] Hin (Ft & Dom & Mono & Fo & New).
   assert (HSt : ~ S t) by (intros HS; apply (K1 t HS Hin)).
   constructor.
   - intros d Hd. rewrite Ft. apply K1. exact Hd.
@@ -380,13 +396,17 @@ Proof.
     assert (Nu : u <> t) by congruence.
     destruct (get u s) as [fu|] eqn:Eu.
     + rewrite (Fo u Nu) in Hg by (rewrite Eu; discriminate). rewrite Eu in Hg. inversion Hg; subst fu.
-      apply (K4 u tk Eu Hds Hr HSu e He). apply (unc_mono s s' Fd). exact Hc.
-    + destruct (New u None tk Hg) as [(_ & E & _)|(o & tk0 & Hg0 & _)]; [rewrite E in He; destruct He|congruence].
+      apply (K4 u tk Eu Hds Hr HSu e He). destruct (computed e s) eqn:E; [rewrite (Mono e E) in Hc; discriminate|reflexivity].
+    + rewrite (New u tk Nu Eu Hg) in He. destruct He.
   - rewrite Ft. exact K5.
   - intros d Hd. rewrite Ft in Hd. apply Dom. apply K6. exact Hd.
   - rewrite Ft. exact K7.
   - rewrite Ft. intros E. rewrite E in Hin. destruct Hin.
 Qed.
+
+Lemma pass_ok_frame root S t s s' :
+  pass_ok root S (Some t) s -> In t (tasks s) -> frame_t t s s' -> pass_ok root S (Some t) s'.
+Proof. intros H Hin F. apply (pass_ok_frame_w root S t s s' H Hin). apply frame_t_w. exact F. Qed.
 
 (* the standard ways a running-mode transition changes the state *)
 Lemma frame_t_view t s s' : heap s' = heap s -> tasks s' = tasks s -> frame_t t s s'.
@@ -604,6 +624,71 @@ Proof.
   - intros p o tkp Hp. destruct (Hent p o tkp Hp) as [(-> & -> & ->)|(N & Hp0)]; [pose proof (K6 t None tk Hg); lia|apply (K6 p o tkp Hp0)].
 Qed.
 
+Lemma pass_ok_weaken root S t s : pass_ok root S None s -> pass_ok root S (Some t) s.
+Proof.
+  intros [K1 K2 K3 K4 K5 K6 K7 K8]. constructor; auto.
+  - intros above x below tk Hst Hg Hds _. apply (K3 above x below tk Hst Hg Hds). discriminate.
+  - intros u tk Hg Hds _. apply (K4 u tk Hg Hds). discriminate.
+Qed.
+
+Lemma computed_upd_none s s' x tk tk' :
+  get x s = Some (mkFut None (KTask tk)) -> upd_entry s s' x (mkFut None (KTask tk')) -> forall e, computed e s' = computed e s.
+Proof.
+  intros Hg (A & B & _) e. unfold computed. destruct (fid_eqb e x) eqn:E.
+  - apply fid_eqb_eq in E. subst e. rewrite A, Hg. reflexivity.
+  - assert (e <> x) by (intros ->; rewrite fid_eqb_refl in E; discriminate). rewrite B by assumption. reflexivity.
+Qed.
+
+Lemma not_blocked_done tk s : is_blocked tk s = false -> forall e, In e (tk_deps tk) -> computed e s = true.
+Proof.
+  unfold is_blocked. intros H e He. destruct (computed e s) eqn:E; [reflexivity|].
+  assert (X : existsb (fun d => negb (computed d s)) (tk_deps tk) = true) by (apply existsb_exists; exists e; rewrite E; auto).
+  congruence.
+Qed.
+
+Lemma blocked_witness tk s : is_blocked tk s = true -> exists e, In e (tk_deps tk) /\ computed e s = false.
+Proof.
+  unfold is_blocked. intros H. apply existsb_exists in H as (e & He & Hc). exists e. split; [exact He|]. apply negb_true_iff. exact Hc.
+Qed.
+
+Lemma in_futs (l : list rleaf) h : In h (futs l) <-> In (RFut h) l.
+Proof.
+  unfold futs. rewrite in_flat_map. split.
+  - intros ([h'|] & Hin & Hh); [destruct Hh as [<-|[]]; exact Hin|destruct Hh].
+  - intros Hin. exists (RFut h). split; [exact Hin|left; reflexivity].
+Qed.
+
+(* the running task's entry becomes computed: nothing is left to say about its dependencies *)
+Lemma frame_t_finish t s s' tk o tkf :
+  get t s = Some (mkFut None (KTask tk)) -> upd_entry s s' t (mkFut (Some o) (KTask tkf)) -> tasks s' = tasks s ->
+  tk_deps tkf = [] -> (tk_iter tk <= tk_iter tkf)%Z -> frame_t t s s'.
+Proof.
+  intros Hg U Ht Hd Hi. apply (frame_t_upd t s s' None tk (Some o) tkf Hg U Ht); [discriminate|right; exact Hd|exact Hi].
+Qed.
+
+(* ------------------------------------------------------------------ flushing never deletes an entry *)
+Lemma flush_batch_dom P k s h : get h s <> None -> get h (flush_batch P k s) <> None.
+Proof.
+  intros Hh. unfold flush_batch. destruct (b_done (get_batch k s)); [exact Hh|].
+  set (s0 := if Z.eqb (cur_idx (fst k) s) (snd k) then with_cur s (upd Z.eqb (fst k) (snd k + 1) (cur s)) else s).
+  assert (Hh0 : heap s0 = heap s) by (unfold s0; destruct (Z.eqb _ _); reflexivity).
+  set (s1 := emit (EvFlush (fst k) (snd k) (b_items (get_batch k s))) s0).
+  pose proof (flush_body_spec (b_items (get_batch k s)) 0 (ks_raise (kspec_of P (fst k))) s1) as HB.
+  destruct (flush_body (b_items (get_batch k s)) 0 (ks_raise (kspec_of P (fst k))) s1) as [s2 err].
+  cbn zeta in HB. cbn [fst] in HB. destruct HB as (_ & _ & G2 & _).
+  pose proof (fold_complete_spec (match err with Some e => Err e | None => Err E_NOTSET end) (b_items (get_batch k s)) s2) as HF.
+  cbn zeta in HF. destruct HF as (_ & _ & G3 & _).
+  change (get h (put_batch ?a ?b ?z)) with (get h z). apply G3, G2. unfold get, s1. cbn. rewrite Hh0. exact Hh.
+Qed.
+
+Lemma continue_with_batch_dom P s h : get h s <> None -> get h (continue_with_batch P s) <> None.
+Proof.
+  intros Hh. unfold continue_with_batch. pose proof (select_batches P s) as [_ Hheap].
+  destruct (select P s) as [[k|] s1]; cbn [snd] in Hheap.
+  - rewrite get_emit. apply flush_batch_dom. unfold get. cbn. rewrite Hheap. exact Hh.
+  - unfold get. rewrite Hheap. exact Hh.
+Qed.
+
 Section C04.
   Variable P : params.
   Hypothesis HP : pointwise P.
@@ -627,7 +712,9 @@ Section C04.
     | m => deps_ok root (c_st c) /\
       match m with
       | MExecLoop => pass_ok root S None (c_st c)
-      | MResume t | MRun t _ => pass_ok root S (Some t) (c_st c) /\ running_deps_done (c_st c) t
+      | MResume t => pass_ok root S (Some t) (c_st c) /\ running_deps_done (c_st c) t
+      | MRun t _ => pass_ok root S (Some t) (c_st c) /\ running_deps_done (c_st c) t /\
+                    (forall tk, get t (c_st c) = Some (mkFut None (KTask tk)) -> (1 <= tk_iter tk)%Z)
       | MContRet => exists t rest, tasks (c_st c) = t :: rest /\ pass_ok root S (Some t) (c_st c) /\ after_run S (c_st c) t
       | MAfterExec => stuck S (c_st c)
       | _ => True
@@ -679,4 +766,470 @@ Section C04.
         * rewrite HK. discriminate.
   Qed.
 
+  Lemma deps_step_cwb spec s : SInv spec None s -> deps_step s (continue_with_batch P s).
+  Proof.
+    intros HS. destruct (SInv_continue_with_batch spec None P s HP HS) as (_ & B & _).
+    split; [intros d; apply continue_with_batch_dom|]. split; [exact B|].
+    intros p o' tk' Hg. right. exists o', tk'. split; [apply (continue_with_batch_task_back P s); [apply HS|exact Hg]|].
+    split; [auto|]. split; [left; reflexivity|lia].
+  Qed.
+
+  Lemma dl_MAfterExec spec S fr s : DL spec S (mkC MAfterExec fr s) -> DL spec S (step P (mkC MAfterExec fr s)).
+  Proof.
+    intros (HFL & HD & _). split; [apply fl_MAfterExec; auto|].
+    destruct HFL as ((Hr & Hf & HS & Ht & _) & _). cbn in Hf, HS, Ht. subst fr. cbn [step c_mode c_frames c_st].
+    destruct (computed root s); [cbn; auto|]. cbn. split; [|exact I].
+    apply (deps_ok_step root s); [destruct Ht as (o & tk & Hg); rewrite Hg; discriminate|exact HD|apply (deps_step_cwb spec); exact HS].
+  Qed.
+
+  Lemma dl_MExecLoop spec S fr s : DL spec S (mkC MExecLoop fr s) -> exists S', DL spec S' (step P (mkC MExecLoop fr s)).
+  Proof.
+    intros (HFL & HD & HPk). pose proof (fl_MExecLoop P root res spec fr s HFL) as HFL'.
+    destruct HFL as ((Hr & Hf & HS & Ht & _) & HF & HK). cbn in Hf, HS, Ht, HF, HK. subst fr.
+    assert (Hroot : get root s <> None) by (destruct Ht as (o & tk & Hg); rewrite Hg; discriminate).
+    cbn [c_mode c_frames c_st] in HD, HPk.
+    cbn [step c_mode c_frames c_st] in *.
+    assert (Hend : tasks s = [] -> stuck S s).
+    { intros E. destruct (pk_end _ _ _ _ HPk E) as [Hc|HSr]; [left; exact Hc|right; split; [exact HSr|apply (pk_ok _ _ _ _ HPk)]]. }
+    destruct (Nat.leb (length (tasks s)) 0) eqn:Hle.
+    { exists S. split; [exact HFL'|]. cbn. split; [exact HD|]. apply Nat.leb_le in Hle. apply Hend.
+      destruct (tasks s); [reflexivity|cbn in Hle; lia]. }
+    destruct (Z.ltb (p_maxstack P) (Z.of_nat (length (tasks s)))); [exists S; split; [exact HFL'|exact I]|].
+    destruct (tasks s) as [|x ts] eqn:Hts; [exists S; split; [exact HFL'|]; cbn; split; [exact HD|apply Hend; reflexivity]|].
+    (* generic pop: the stack loses x, the heap may change at x only *)
+    assert (Hpop : forall S' s2, deps_step s s2 -> tasks s2 = x :: ts -> (forall h, h <> x -> get h s2 = get h s) ->
+              ((S' = S /\ computed x s2 = true) \/ (S' = S_add S x /\ S_ok S' s2 x)) ->
+              deps_ok root (pop_task s2) /\ pass_ok root S' None (pop_task s2)).
+    { intros S' s2 Hd Ht2 Hoth Hx. split.
+      - apply (deps_ok_step root s); [exact Hroot|exact HD|]. eapply deps_step_trans; [exact Hd|apply deps_step_view; reflexivity].
+      - apply (pass_pop root S S' s (pop_task s2) x ts HPk Hts).
+        + unfold pop_task. cbn. rewrite Ht2. reflexivity.
+        + intros h N. change (get h (pop_task s2)) with (get h s2). apply Hoth. exact N.
+        + intros h Hh. change (get h (pop_task s2)) with (get h s2). destruct Hd as (D1 & _). apply D1. exact Hh.
+        + intros e He. change (computed e (pop_task s2)) with (computed e s2). destruct Hd as (_ & D2 & _). apply D2. exact He.
+        + exact Hx. }
+    destruct (computed x s) eqn:Hcx.
+    { exists S. split; [exact HFL'|]. cbn [c_mode c_st]. apply (Hpop S s); [apply deps_step_refl|exact Hts|auto|left; auto]. }
+    destruct (get x s) as [[out [tk|kind idx key a|o'|]]|] eqn:Hg.
+    - assert (out = None) as -> by (unfold computed in Hcx; rewrite Hg in Hcx; cbn in Hcx; destruct out; [discriminate|reflexivity]).
+      destruct (is_blocked tk s) eqn:Hb.
+      + destruct (tk_ds tk) eqn:Hds.
+        * (* settled *)
+          pose proof (set_task_upd s x None tk (tk_set_ds tk false) Hg) as U1. pose proof U1 as (G1 & _).
+          assert (HS1 : SInv spec None (set_task x (tk_set_ds tk false) s)) by (apply (SInv_set_task_same spec None s x None tk); auto).
+          pose proof (pause_entry spec None _ x None _ HS1 G1) as U2.
+          pose proof (upd_entry_trans _ _ _ _ _ _ U1 U2) as U.
+          set (s2 := pause_contexts x (set_task x (tk_set_ds tk false) s)) in *.
+          set (tk' := tk_with_ctxs (tk_set_ds tk false) (tk_ctxs (tk_set_ds tk false)) false) in *.
+          pose proof (computed_upd_none s s2 x tk tk' Hg U) as Hcomp.
+          exists (S_add S x). split; [exact HFL'|]. cbn [c_mode c_st].
+          apply (Hpop (S_add S x) s2).
+          -- apply (deps_step_upd s s2 x None tk None tk' Hg U); [auto|left; reflexivity|cbn; lia].
+          -- rewrite (tasks_of_regs s); [exact Hts|]. unfold s2. rewrite regs_pause_contexts, regs_set_task. reflexivity.
+          -- intros h N. destruct U as (_ & B & _). apply B. exact N.
+          -- right. split; [reflexivity|]. left. exists tk'. destruct U as (A & _). split; [exact A|].
+             destruct (blocked_witness tk s Hb) as (e0 & He0 & Hc0).
+             assert (Hgrey : forall e, In e (tk_deps tk) -> computed e s = true \/ S e).
+             { intros e He. destruct (pk_grey _ _ _ _ HPk [] x ts tk Hts Hg Hds ltac:(discriminate) e He) as [H|[H|[]]]; auto. }
+             split; [cbn; apply (dk_iter root s HD x tk Hg); intros E; rewrite E in He0; destruct He0|].
+             split.
+             ++ exists e0. split; [exact He0|]. left. destruct (Hgrey e0 He0) as [H|H]; [congruence|exact H].
+             ++ intros e He. destruct (Hgrey e He) as [H|H]; [left; rewrite Hcomp; exact H|right; left; exact H].
+        * (* first visit *)
+          pose proof (set_task_upd s x None tk (tk_set_ds tk true) Hg) as U1. pose proof U1 as (G1 & _).
+          assert (HS1 : SInv spec None (set_task x (tk_set_ds tk true) s)) by (apply (SInv_set_task_same spec None s x None tk); auto).
+          pose proof (resume_entry spec None _ x None _ HS1 G1) as U2.
+          pose proof (upd_entry_trans _ _ _ _ _ _ U1 U2) as U.
+          set (s2 := resume_contexts x (set_task x (tk_set_ds tk true) s)) in *.
+          set (tk' := tk_with_ctxs (tk_set_ds tk true) (tk_ctxs (tk_set_ds tk true)) true) in *.
+          pose proof (computed_upd_none s s2 x tk tk' Hg U) as Hcomp.
+          assert (Hgt : get_task x s2 = Some tk') by (unfold get_task; destruct U as (A & _); rewrite A; reflexivity).
+          rewrite Hgt in HFL' |- *. change (tk_deps tk') with (tk_deps tk) in HFL' |- *.
+          assert (Htk2 : tasks s2 = x :: ts).
+          { rewrite (tasks_of_regs s); [exact Hts|]. unfold s2. rewrite regs_resume_contexts, regs_set_task. reflexivity. }
+          exists S. split; [exact HFL'|]. cbn [c_mode c_st]. split.
+          -- apply (deps_ok_step root s); [exact Hroot|exact HD|]. eapply deps_step_trans; [|apply deps_step_view; reflexivity].
+             apply (deps_step_upd s s2 x None tk None tk' Hg U); [auto|left; reflexivity|cbn; lia].
+          -- apply (pass_push root S s _ x ts tk tk' HPk HF HD Hts Hg Hds).
+             ++ change (get x (with_tasks s2 ?l)) with (get x s2). destruct U as (A & _). exact A.
+             ++ reflexivity.
+             ++ reflexivity.
+             ++ intros h N. change (get h (with_tasks s2 ?l)) with (get h s2). destruct U as (_ & B & _). apply B. exact N.
+             ++ intros e. change (computed e (with_tasks s2 ?l)) with (computed e s2). apply Hcomp.
+             ++ cbn [tasks with_tasks]. rewrite Htk2. f_equal. f_equal. apply filter_ext. intros d. rewrite Hcomp. reflexivity.
+      + (* not blocked: the task runs *)
+        rewrite (computed_resume_contexts spec None s x HS x), Hcx in HFL' |- *.
+        pose proof (resume_entry spec None s x None tk HS Hg) as U.
+        set (tk' := tk_with_ctxs tk (tk_ctxs tk) true) in *.
+        exists S. split; [exact HFL'|]. cbn [c_mode c_st].
+        assert (Fr : frame_t x s (with_active (resume_contexts x s) (Some x))).
+        { eapply frame_t_trans; [|apply frame_t_view; reflexivity].
+          apply (frame_t_upd x s _ None tk None tk' Hg U); [|auto|left; reflexivity|cbn; lia].
+          apply tasks_of_regs. rewrite regs_resume_contexts. reflexivity. }
+        split; [apply (deps_ok_step root s); [exact Hroot|exact HD|apply Fr]|]. split.
+        * apply (pass_ok_frame root S x s); [apply pass_ok_weaken; exact HPk|rewrite Hts; left; reflexivity|exact Fr].
+        * intros tk2 Hg2 e He. change (get x (with_active ?a ?b)) with (get x a) in Hg2. destruct U as (A & _). rewrite A in Hg2.
+          inversion Hg2; subst tk2. change (tk_deps tk') with (tk_deps tk) in He.
+          change (computed e (with_active ?a ?b)) with (computed e a).
+          rewrite (computed_resume_contexts spec None s x HS e). apply (not_blocked_done tk s Hb e He).
+    - (* item: settled *)
+      assert (out = None) as -> by (unfold computed in Hcx; rewrite Hg in Hcx; cbn in Hcx; destruct out; [discriminate|reflexivity]).
+      assert (Hh : heap (schedule_batch (kind, idx) s) = heap s) by (unfold schedule_batch; destruct (b_done _); [reflexivity|]; destruct (existsb _ _); reflexivity).
+      exists (S_add S x). split; [exact HFL'|]. cbn [c_mode c_st].
+      apply (Hpop (S_add S x) (schedule_batch (kind, idx) s)).
+      + apply deps_step_view. exact Hh.
+      + rewrite (tasks_of_regs s); [exact Hts|]. rewrite regs_schedule_batch. reflexivity.
+      + intros h _. unfold get. rewrite Hh. reflexivity.
+      + right. split; [reflexivity|]. right. exists kind, idx, key, a. unfold get. rewrite Hh. exact Hg.
+    - (* lazy *)
+      exists S. split; [exact HFL'|]. cbn [c_mode c_st].
+      apply (Hpop S (put x (mkFut (Some o') (KLazy o')) s)).
+      + apply (deps_step_nontask s _ x (mkFut out (KLazy o')) (mkFut (Some o') (KLazy o')) Hg); cbn; try discriminate.
+        apply upd_entry_put.
+      + reflexivity || exact Hts.
+      + intros h N. apply get_put_other. exact N.
+      + left. split; [reflexivity|]. unfold computed. rewrite get_put_same. reflexivity.
+    - (* other: computed by SInv *)
+      exfalso. destruct HS as (HE & _). destruct (HE x _ Hg) as (_ & o & _ & _ & Hk). cbn in Hk.
+      unfold computed in Hcx. rewrite Hg in Hcx. cbn in Hcx. destruct out; [discriminate|]. apply Hk. reflexivity.
+    - exfalso. apply (pk_alloc _ _ _ _ HPk x); [rewrite Hts; left; reflexivity|exact Hg].
+  Qed.
+
+  Lemma dl_MResume spec S t fr s : DL spec S (mkC (MResume t) fr s) -> DL spec S (step P (mkC (MResume t) fr s)).
+  Proof.
+    intros (HFL & HD & HPk & Hrd). pose proof (fl_MResume P root res spec t fr s HFL) as HFL'. split; [exact HFL'|]. clear HFL'.
+    destruct HFL as ((Hr & Hf & HS & Ht & (tk & Hg & Hcomp)) & HF & HK). cbn in HK, HS, HF, Hg, HD, HPk, Hrd.
+    destruct HK as ((old & ->) & (rest & Hts) & Hca). cbn in Ht.
+    assert (Hroot : get root s <> None) by (destruct Ht as (o & tk0 & Hg0); rewrite Hg0; discriminate).
+    cbn [step c_mode c_frames c_st]. unfold get_task. rewrite Hg.
+    destruct (SInv_entry _ _ _ _ _ HS Hg) as (_ & ot & Hst & _ & Hp & Hk). cbn in Hp, Hk.
+    destruct (Hk eq_refl ltac:(discriminate)) as (k & K1 & _). rewrite K1.
+    set (tk1 := mkTask (Some k) YNone (if p_keep P then tk_deps tk else []) (tk_ctxs tk) (tk_cact tk) (tk_ds tk) (tk_iter tk + 1) (tk_next tk)).
+    set (s2 := emit (EvStep t (tk_iter tk) (unwrap (look s) (tk_last tk))) (set_task t tk1 s)).
+    assert (U : upd_entry s s2 t (mkFut None (KTask tk1))).
+    { eapply upd_entry_view; [apply (set_task_upd s t None tk tk1 Hg)|reflexivity|reflexivity|reflexivity]. }
+    assert (Htk : tasks s2 = tasks s) by (apply tasks_of_regs; unfold s2; rewrite regs_emit, regs_set_task; reflexivity).
+    assert (Hdeps : tk_deps tk1 = tk_deps tk \/ tk_deps tk1 = []) by (cbn; destruct (p_keep P); auto).
+    assert (Fr : frame_t t s s2) by (apply (frame_t_upd t s s2 None tk None tk1 Hg U Htk); [auto|exact Hdeps|cbn; lia]).
+    cbn [c_mode c_st]. split; [apply (deps_ok_step root s); [exact Hroot|exact HD|apply Fr]|].
+    split; [apply (pass_ok_frame root S t s); [exact HPk|rewrite Hts; left; reflexivity|exact Fr]|].
+    pose proof (computed_upd_none s s2 t tk tk1 Hg U) as Hcomp2.
+    split.
+    - intros tk2 Hg2 e He. destruct U as (A & _). rewrite A in Hg2. inversion Hg2; subst tk2.
+      rewrite Hcomp2. apply (Hrd tk Hg e). destruct Hdeps as [E|E]; rewrite E in He; [exact He|destruct He].
+    - intros tk2 Hg2. destruct U as (A & _). rewrite A in Hg2. inversion Hg2; subst tk2. cbn.
+      pose proof (dk_iter0 root s HD t None tk Hg). lia.
+  Qed.
+
+  (* the running task's entry changes but not its dependencies or step count (entering / leaving a context) *)
+  Lemma dlrun_upd S t s s2 tk tk1 :
+    deps_ok root s -> get root s <> None -> pass_ok root S (Some t) s -> In t (tasks s) -> running_deps_done s t ->
+    (1 <= tk_iter tk)%Z -> get t s = Some (mkFut None (KTask tk)) -> upd_entry s s2 t (mkFut None (KTask tk1)) ->
+    tasks s2 = tasks s -> tk_deps tk1 = tk_deps tk -> tk_iter tk1 = tk_iter tk ->
+    deps_ok root s2 /\ pass_ok root S (Some t) s2 /\ running_deps_done s2 t /\
+    (forall tk', get t s2 = Some (mkFut None (KTask tk')) -> (1 <= tk_iter tk')%Z).
+  Proof.
+    intros HD Hroot HPk Hint Hrd Hi Hg U Htk Hd Hi1.
+    assert (Fr : frame_t t s s2) by (apply (frame_t_upd t s s2 None tk None tk1 Hg U Htk); [auto|left; exact Hd|lia]).
+    pose proof (computed_upd_none s s2 t tk tk1 Hg U) as Hc.
+    split; [apply (deps_ok_step root s); [exact Hroot|exact HD|apply Fr]|].
+    split; [apply (pass_ok_frame root S t s); assumption|].
+    destruct U as (A & _). split.
+    - intros tk' Hg' e He. rewrite A in Hg'. inversion Hg'; subst tk'. rewrite Hd in He. rewrite Hc. apply (Hrd tk Hg e He).
+    - intros tk' Hg'. rewrite A in Hg'. inversion Hg'; subst tk'. lia.
+  Qed.
+
+  Lemma dl_MRun spec S t p fr s : DL spec S (mkC (MRun t p) fr s) -> exists spec', DL spec' S (step P (mkC (MRun t p) fr s)).
+  Proof.
+    intros (HFL & HD & HPk & Hrd & Hit). destruct (fl_MRun P root res spec t p fr s HFL) as (spec' & HFL'). exists spec'. split; [exact HFL'|]. clear HFL'.
+    destruct HFL as ((Hr & Hf & HS & Ht & (Htree & Hst & (tk & Hg))) & HF & HK). cbn in HK, HS, HF, Hg, Ht, HD, HPk, Hrd, Hit.
+    destruct HK as ((old & ->) & (rest & Hts) & Hca).
+    assert (Hroot : get root s <> None) by (destruct Ht as (o & tk0 & Hg0); rewrite Hg0; discriminate).
+    assert (Hint : In t (tasks s)) by (rewrite Hts; left; reflexivity).
+    cbn [step c_mode c_frames c_st]. unfold get_task. rewrite Hg.
+    assert (Hfin : forall o, let s1 := set_task t (mkTask None (tk_last tk) (tk_deps tk) (tk_ctxs tk) (tk_cact tk) (tk_ds tk) (tk_iter tk) (tk_next tk)) s in
+              computed t s1 = false /\
+              deps_ok root (complete_task t o s1) /\
+              exists t0 rest0, tasks (complete_task t o s1) = t0 :: rest0 /\ pass_ok root S (Some t0) (complete_task t o s1) /\
+                               after_run S (complete_task t o s1) t0).
+    { intros o. cbn zeta.
+      set (tkc := mkTask None (tk_last tk) (tk_deps tk) (tk_ctxs tk) (tk_cact tk) (tk_ds tk) (tk_iter tk) (tk_next tk)).
+      pose proof (set_task_upd s t None tk tkc Hg) as U1. pose proof U1 as (G1 & _).
+      split; [unfold computed; rewrite G1; reflexivity|].
+      rewrite (complete_task_closed t o _ None tkc G1 eq_refl).
+      set (tkf := mkTask None YNone [] (tk_ctxs tkc) (tk_cact tkc) (tk_ds tkc) (tk_iter tkc) (tk_next tkc)).
+      set (s2 := emit (EvDone t o) (put t (mkFut (Some o) (KTask tkf)) (set_task t tkc s))).
+      assert (U2 : upd_entry s s2 t (mkFut (Some o) (KTask tkf))).
+      { eapply upd_entry_trans; [exact U1|]. eapply upd_entry_view; [apply upd_entry_put|reflexivity|reflexivity|reflexivity]. }
+      assert (Htk : tasks s2 = tasks s) by (apply tasks_of_regs; unfold s2; rewrite regs_emit, regs_put, regs_set_task; reflexivity).
+      assert (Fr : frame_t t s s2) by (apply (frame_t_finish t s s2 tk o tkf Hg U2 Htk); [reflexivity|cbn; lia]).
+      split; [apply (deps_ok_step root s); [exact Hroot|exact HD|apply Fr]|].
+      exists t, rest. split; [rewrite Htk; exact Hts|]. split; [apply (pass_ok_frame root S t s); assumption|].
+      intros tk' Hg'. destruct U2 as (A & _). rewrite A in Hg'. discriminate. }
+    inversion Htree as [v Ev|v Ev|e Ev|y k Hl Hk Ev|c k Hc Hk Ev|c k Hc Hk Ev]; subst p.
+    - destruct (Hfin (Ok v)) as (Hnc & A & B). cbn zeta in *. rewrite Hnc. cbn [c_mode c_st]. split; [exact A|exact B].
+    - destruct (Hfin (Ok v)) as (Hnc & A & B). cbn zeta in *. rewrite Hnc. cbn [c_mode c_st]. split; [exact A|exact B].
+    - destruct (Hfin (Err e)) as (Hnc & A & B). cbn zeta in *. unfold accept_error. rewrite Hnc. cbn [c_mode c_st]. split; [exact A|exact B].
+    - (* Yield *)
+      destruct (SInv_inst (Some t) t y spec s HS Hl) as (spec1 & (Ext & HS1 & Old) & Uw & A).
+      pose proof (grow_inst spec (Some t) t y s HS Hl) as (Gd & Go).
+      pose proof (inst_ids t y s Hl) as (Hle & Hids & Hnd).
+      pose proof (regs_inst t y s) as Hri.
+      destruct (inst t y s) as [y' s1]. cbn [fst snd] in *.
+      assert (Hg1 : get t s1 = Some (mkFut None (KTask tk))) by (rewrite Old; [exact Hg|rewrite Hg; discriminate]).
+      rewrite Hg1.
+      set (newd := futs (extract y')).
+      assert (Hperm : Permutation newd (futs (leaves y'))) by (unfold newd, futs; apply Permutation_flat_map; apply extract_permutation).
+      assert (Hfresh : forall e, In e newd -> get e s = None).
+      { intros e He. apply (Permutation_in _ Hperm) in He. destruct (Hids e He) as (n & -> & Hn).
+        destruct (get [n] s) as [f|] eqn:E; [|reflexivity]. exfalso.
+        destruct (SInv_entry _ _ _ _ _ HS E) as ((n' & En & Hn') & _). inversion En. lia. }
+      assert (Hnew1 : forall e, In e newd -> get e s1 <> None).
+      { intros e He. apply A. apply in_futs. apply (Permutation_in _ Hperm). exact He. }
+      assert (Hndn : NoDup newd) by (apply (Permutation_NoDup (Permutation_sym Hperm)); exact Hnd).
+      set (tk2 := mkTask (Some k) y' (tk_deps tk ++ newd) (tk_ctxs tk) (tk_cact tk) (tk_ds tk) (tk_iter tk) (tk_next tk)).
+      pose proof (set_task_upd s1 t None tk tk2 Hg1) as U2.
+      set (s2 := set_task t tk2 s1) in *.
+      assert (Htk1 : tasks s1 = tasks s) by (apply tasks_of_regs; exact Hri).
+      assert (Htk2 : tasks s2 = tasks s) by (rewrite <- Htk1; apply tasks_of_regs; unfold s2; rewrite regs_set_task; reflexivity).
+      pose proof (computed_upd_none s1 s2 t tk tk2 Hg1 U2) as Hc2.
+      assert (HD1 : deps_ok root s1) by (apply (deps_ok_step root s); assumption).
+      assert (Hroot1 : get root s1 <> None) by (destruct Gd as (D1 & _); apply D1; exact Hroot).
+      assert (Hold1 : forall e, In e (tk_deps tk) -> computed e s1 = true).
+      { intros e He. destruct Gd as (_ & D2 & _). apply D2. apply (Hrd tk Hg e He). }
+      assert (HD2 : deps_ok root s2).
+      { apply (deps_ok_yield root s1 s2 t tk tk2 newd HD1 Hroot1 Hg1 U2); [reflexivity|exact Hold1|exact Hndn| |apply (Hit tk Hg)|reflexivity].
+        intros e He. split; [apply Hnew1; exact He|]. split.
+        - intros ->. apply Hroot. apply Hfresh. exact He.
+        - intros p0 o tkp Hp Hin. destruct Gd as (_ & _ & D3). destruct (D3 p0 o tkp Hp) as [(_ & E & _)|(o0 & tk0 & Hg0 & _ & Hd0 & _)].
+          + rewrite E in Hin. destruct Hin.
+          + destruct Hd0 as [Hd0|Hd0]; [|rewrite Hd0 in Hin; destruct Hin]. rewrite Hd0 in Hin.
+            apply (dk_alloc root s HD p0 o0 tk0 e Hg0 Hin). apply Hfresh. exact He. }
+      assert (Fw : frame_w t s s2).
+      { destruct Gd as (D1 & D2 & D3). pose proof (upd_entry_dom _ _ _ _ _ Hg1 U2) as Dom2. destruct U2 as (A2 & B2 & _).
+        split; [exact Htk2|]. split; [intros d Hd; apply Dom2; apply D1; exact Hd|].
+        split; [intros d Hd; rewrite Hc2; apply D2; exact Hd|].
+        split; [intros h N Hh; rewrite B2 by exact N; apply Go; exact Hh|].
+        intros u tku N Hn Hgu. rewrite B2 in Hgu by exact N.
+        destruct (D3 u None tku Hgu) as [(_ & E & _)|(o0 & tk0 & Hg0 & _)]; [exact E|congruence]. }
+      pose proof (pass_ok_frame_w root S t s s2 HPk Hint Fw) as HPk2.
+      assert (Hg2 : get t s2 = Some (mkFut None (KTask tk2))) by (destruct U2 as (A2 & _); exact A2).
+      assert (Hdeps2 : forall e, In e (tk_deps tk2) -> In e (tk_deps tk) \/ In e newd) by (intros e He; apply in_app_or; exact He).
+      destruct (tk_deps tk ++ newd) as [|d0 dl] eqn:Edeps; cbn [c_mode c_st]; (split; [exact HD2|]).
+      + split; [exact HPk2|]. intros tk' Hg' e He. rewrite Hg2 in Hg'. inversion Hg'; subst tk'. exfalso.
+        apply app_eq_nil in Edeps as [E1 E2]. destruct (Hdeps2 e He) as [H|H]; [rewrite E1 in H|rewrite E2 in H]; destruct H.
+      + exists t, rest. split; [rewrite Htk2; exact Hts|]. split; [exact HPk2|].
+        intros tk' Hg' e He Hc. rewrite Hg2 in Hg'. inversion Hg'; subst tk'.
+        destruct (Hdeps2 e He) as [He'|He'].
+        * rewrite Hc2, (Hold1 e He') in Hc. discriminate.
+        * split.
+          -- intros HSe. apply (S_ok_alloc S s e); [apply (pk_ok _ _ _ _ HPk); exact HSe|apply Hfresh; exact He'].
+          -- rewrite Htk2. intros Hin. apply (pk_alloc _ _ _ _ HPk e Hin). apply Hfresh. exact He'.
+    - (* Enter *)
+      unfold enter_ctx, get_task. rewrite Hg.
+      set (tk1 := tk_with_ctxs tk (tk_ctxs tk ++ [c]) (tk_cact tk)).
+      pose proof (set_task_upd s t None tk tk1 Hg) as U1.
+      assert (V : forall s2, heap s2 = heap (set_task t tk1 s) -> tasks s2 = tasks (set_task t tk1 s) ->
+                batches s2 = batches (set_task t tk1 s) -> top_next s2 = top_next (set_task t tk1 s) ->
+                deps_ok root s2 /\ pass_ok root S (Some t) s2 /\ running_deps_done s2 t /\
+                (forall tk', get t s2 = Some (mkFut None (KTask tk')) -> (1 <= tk_iter tk')%Z)).
+      { intros s2 E1 E2 E3 E4. apply (dlrun_upd S t s s2 tk tk1); auto.
+        - eapply upd_entry_view; [exact U1|exact E1|exact E3|exact E4].
+        - rewrite E2. apply tasks_of_regs. rewrite regs_set_task. reflexivity. }
+      destruct c as [cid f|cid|cid var v]; cbn [c_mode c_frames c_st]; apply V; reflexivity.
+    - (* Exit *)
+      unfold exit_ctx, get_task. rewrite Hg.
+      set (tk1 := tk_with_ctxs tk (remove_ctx c (tk_ctxs tk)) (tk_cact tk)).
+      pose proof (set_task_upd s t None tk tk1 Hg) as U1.
+      assert (V : forall s2, heap s2 = heap (set_task t tk1 s) -> tasks s2 = tasks (set_task t tk1 s) ->
+                batches s2 = batches (set_task t tk1 s) -> top_next s2 = top_next (set_task t tk1 s) ->
+                deps_ok root s2 /\ pass_ok root S (Some t) s2 /\ running_deps_done s2 t /\
+                (forall tk', get t s2 = Some (mkFut None (KTask tk')) -> (1 <= tk_iter tk')%Z)).
+      { intros s2 E1 E2 E3 E4. apply (dlrun_upd S t s s2 tk tk1); auto.
+        - eapply upd_entry_view; [exact U1|exact E1|exact E3|exact E4].
+        - rewrite E2. apply tasks_of_regs. rewrite regs_set_task. reflexivity. }
+      unfold pause_plain. destruct c as [cid f|cid|cid var v]; cbn [c_mode c_frames c_st]; apply V; reflexivity.
+  Qed.
+
+  (* back in the pass: the task that ran is an ordinary (white) stack entry again *)
+  Lemma pass_ok_unrun S t rest s s2 :
+    pass_ok root S (Some t) s -> tasks s = t :: rest -> after_run S s t ->
+    tasks s2 = tasks s -> (forall h, h <> t -> get h s2 = get h s) -> (forall e, computed e s2 = computed e s) ->
+    (get t s <> None -> get t s2 <> None) ->
+    (forall tk', get t s2 = Some (mkFut None (KTask tk')) ->
+       tk_ds tk' = false /\ exists tk, get t s = Some (mkFut None (KTask tk)) /\ tk_deps tk' = tk_deps tk) ->
+    pass_ok root S None s2.
+  Proof.
+    intros [K1 K2 K3 K4 K5 K6 K7 K8] Hts Har Ht2 Hoth Hcomp Hdomt Hent.
+    assert (Hint : In t (tasks s)) by (rewrite Hts; left; reflexivity).
+    assert (HSt : ~ S t) by (intros H; apply (K1 t H Hint)).
+    constructor.
+    - intros d Hd. rewrite Ht2. apply K1. exact Hd.
+    - intros d Hd. apply (S_ok_frame S s); [apply K2; exact Hd| |intros e; rewrite Hcomp; auto].
+      apply Hoth. intros ->. contradiction.
+    - intros above x below tk Hst Hg Hds _ e He. rewrite Ht2 in Hst. rewrite Hcomp.
+      destruct (fid_eqb x t) eqn:E.
+      + apply fid_eqb_eq in E. subst x. destruct (Hent tk Hg) as [E1 _]. congruence.
+      + assert (Nx : x <> t) by (intros ->; rewrite fid_eqb_refl in E; discriminate). rewrite (Hoth x Nx) in Hg.
+        apply (K3 above x below tk Hst Hg Hds); [congruence|exact He].
+    - intros u tk Hg Hds _ HSu e He Hc. rewrite Ht2. rewrite Hcomp in Hc.
+      destruct (fid_eqb u t) eqn:E.
+      + apply fid_eqb_eq in E. subst u. destruct (Hent tk Hg) as (_ & tk0 & Hg0 & Hd0). rewrite Hd0 in He.
+        apply (Har tk0 Hg0 e He Hc).
+      + assert (Nu : u <> t) by (intros ->; rewrite fid_eqb_refl in E; discriminate). rewrite (Hoth u Nu) in Hg.
+        apply (K4 u tk Hg Hds); [congruence|exact HSu|exact He|exact Hc].
+    - rewrite Ht2. exact K5.
+    - intros d Hd. rewrite Ht2 in Hd. destruct (fid_eqb d t) eqn:E.
+      + apply fid_eqb_eq in E. subst d. apply Hdomt. apply K6. exact Hd.
+      + assert (Nd : d <> t) by (intros ->; rewrite fid_eqb_refl in E; discriminate). rewrite (Hoth d Nd). apply K6. exact Hd.
+    - rewrite Ht2. exact K7.
+    - rewrite Ht2. intros E. rewrite E in Hts. discriminate.
+  Qed.
+
+  Lemma dl_MContRet spec S fr s : DL spec S (mkC MContRet fr s) -> DL spec S (step P (mkC MContRet fr s)).
+  Proof.
+    intros (HFL & HD & (t0 & rest0 & Hts0 & HPk & Har)). pose proof (fl_MContRet P root res spec fr s HFL) as HFL'. split; [exact HFL'|]. clear HFL'.
+    destruct HFL as ((Hr & Hf & HS & Ht & _) & HF & HK). cbn in HK, HF, Ht, HD, HPk, Har, Hts0.
+    destruct HK as (t & old & rest & -> & Hts & Hca).
+    assert (t0 = t) as -> by congruence.
+    assert (Hroot : get root s <> None) by (destruct Ht as (o & tk0 & Hg0); rewrite Hg0; discriminate).
+    cbn [step c_mode c_frames c_st].
+    set (s1 := with_active s old).
+    unfold get_task. change (get t s1) with (get t s).
+    destruct (get t s) as [[out [tk| | |]]|] eqn:Hg; cbn [c_mode c_st].
+    - pose proof (set_task_upd s1 t out tk (tk_set_ds tk false) Hg) as U.
+      assert (U' : upd_entry s (set_task t (tk_set_ds tk false) s1) t (mkFut out (KTask (tk_set_ds tk false)))).
+      { destruct U as (A & B & C & D). split; [exact A|]. split; [exact B|]. split; assumption. }
+      split.
+      + apply (deps_ok_step root s); [exact Hroot|exact HD|].
+        apply (deps_step_upd s _ t out tk out (tk_set_ds tk false) Hg U'); [auto|left; reflexivity|cbn; lia].
+      + apply (pass_ok_unrun S t rest0 s _ HPk Hts0 Har).
+        * change (tasks s) with (tasks s1). apply tasks_of_regs. rewrite regs_set_task. reflexivity.
+        * intros h N. destruct U' as (_ & B & _). apply B. exact N.
+        * intros e. unfold computed. destruct (fid_eqb e t) eqn:E.
+          -- apply fid_eqb_eq in E. subst e. destruct U' as (A & _). rewrite A, Hg. reflexivity.
+          -- assert (Ne : e <> t) by (intros ->; rewrite fid_eqb_refl in E; discriminate). destruct U' as (_ & B & _). rewrite B by exact Ne. reflexivity.
+        * intros _. destruct U' as (A & _). rewrite A. discriminate.
+        * intros tk' Hg'. destruct U' as (A & _). rewrite A in Hg'. inversion Hg'; subst. split; [reflexivity|]. exists tk. split; [exact Hg|reflexivity].
+    - split; [apply (deps_ok_step root s); [exact Hroot|exact HD|apply deps_step_view; reflexivity]|].
+      apply (pass_ok_unrun S t rest0 s s1 HPk Hts0 Har); try reflexivity; auto.
+      intros tk' Hg'. change (get t s1) with (get t s) in Hg'. congruence.
+    - split; [apply (deps_ok_step root s); [exact Hroot|exact HD|apply deps_step_view; reflexivity]|].
+      apply (pass_ok_unrun S t rest0 s s1 HPk Hts0 Har); try reflexivity; auto.
+      intros tk' Hg'. change (get t s1) with (get t s) in Hg'. congruence.
+    - split; [apply (deps_ok_step root s); [exact Hroot|exact HD|apply deps_step_view; reflexivity]|].
+      apply (pass_ok_unrun S t rest0 s s1 HPk Hts0 Har); try reflexivity; auto.
+      intros tk' Hg'. change (get t s1) with (get t s) in Hg'. congruence.
+    - split; [apply (deps_ok_step root s); [exact Hroot|exact HD|apply deps_step_view; reflexivity]|].
+      apply (pass_ok_unrun S t rest0 s s1 HPk Hts0 Har); try reflexivity; auto.
+      intros tk' Hg'. change (get t s1) with (get t s) in Hg'. congruence.
+  Qed.
+
+  Theorem dl_step spec S c : is_unwind (c_mode c) = false -> DL spec S c -> exists spec' S', DL spec' S' (step P c).
+  Proof.
+    destruct c as [m fr s]. destruct m; cbn [c_mode is_unwind]; intros Hu HI; try discriminate.
+    - exists spec, S. apply dl_MValue; exact HI.
+    - destruct (dl_MWaitHead spec S fr s HI) as (S' & H). exists spec, S'. exact H.
+    - exists spec, S. apply dl_MAfterExec; exact HI.
+    - destruct (dl_MExecLoop spec S fr s HI) as (S' & H). exists spec, S'. exact H.
+    - exists spec, S. apply dl_MResume; exact HI.
+    - destruct (dl_MRun spec S _ _ fr s HI) as (spec' & H). exists spec', S. exact H.
+    - exists spec, S. apply dl_MContRet; exact HI.
+    - exists spec, S. apply dl_MDeliver; exact HI.
+    - exists spec, S. exact HI.
+    - exists spec, S. exact HI.
+  Qed.
+
+  Theorem dl_run n : forall spec S c, DL spec S c -> no_unwind P n c -> exists spec' S', DL spec' S' (run P n c).
+  Proof.
+    induction n as [|n IH]; intros spec S c HI Hn; [exists spec, S; exact HI|].
+    rewrite run_S. destruct (is_final (c_mode c)) eqn:Hf; [exists spec, S; exact HI|].
+    destruct (dl_step spec S c) as (spec1 & S1 & HI1); [apply (Hn O); lia|exact HI|].
+    apply (IH spec1 S1); [exact HI1|].
+    intros k Hk. specialize (Hn (Datatypes.S k) ltac:(lia)). rewrite run_S, Hf in Hn. exact Hn.
+  Qed.
+
 End C04.
+
+(* ------------------------------------------------------------------ C04 theorems (tree programs) *)
+(* d is reachable from x through the dependency lists of uncompleted tasks *)
+Inductive reach (s : st) (x : fid) : fid -> Prop :=
+| reach_refl : reach s x x
+| reach_dep y tk z : reach s x y -> get y s = Some (mkFut None (KTask tk)) -> In z (tk_deps tk) -> reach s x z.
+
+Section C04_theorems.
+  Variable P : params.
+  Hypothesis HP : pointwise P.
+  Variable p : prog.
+  Hypothesis Ht : tree p.
+
+  Let h := fst (create [] (FTask p) (st0 P)).
+  Let s1 := snd (create [] (FTask p) (st0 P)).
+
+  Lemma dl_reach n : no_unwind P n (start h s1) -> exists spec S, DL h (eval p) spec S (run P n (start h s1)).
+  Proof.
+    intros Hn.
+    pose proof (SInv_create (fun _ => None) None [] (FTask p) (st0 P) (SInv_empty P) (tf_task p Ht)) as HC.
+    cbn zeta in HC. fold h s1 in HC. destruct HC as (_ & HS1 & Hnew & _).
+    assert (Hg : is_task h s1) by (unfold h, s1, create, alloc; cbn; eexists _, _; apply get_put_same).
+    assert (HI : CInv h (eval p) (spec_add (fun _ => None) h (eval p)) (start h s1)).
+    { apply CInv_intro; [unfold spec_add; rewrite fid_eqb_refl; reflexivity|reflexivity|exact HS1|exact Hg|reflexivity]. }
+    assert (HFL : FL h (eval p) (spec_add (fun _ => None) h (eval p)) (start h s1)).
+    { split; [exact HI|]. cbn. split; [|reflexivity].
+      pose proof (flags_create [] (FTask p) (st0 P)) as HF. fold s1 in HF. apply HF.
+      intros u tk Hgu. discriminate. }
+    assert (Hent : forall u o tk, get u s1 = Some (mkFut o (KTask tk)) -> tk_deps tk = [] /\ tk_iter tk = 0%Z).
+    { intros u o tk Hgu. unfold s1, create, alloc in Hgu. cbn in Hgu. destruct (fid_eqb u [top_next (st0 P)]) eqn:E.
+      - apply fid_eqb_eq in E. subst u. rewrite get_put_same in Hgu. inversion Hgu. split; reflexivity.
+      - assert (N : u <> [top_next (st0 P)]) by (intros ->; rewrite fid_eqb_refl in E; discriminate).
+        rewrite get_put_other in Hgu by exact N. discriminate. }
+    assert (HD : deps_ok h s1).
+    { constructor.
+      - intros u o tk d Hgu Hin. destruct (Hent u o tk Hgu) as [E _]. rewrite E in Hin. destruct Hin.
+      - intros u u' tk tk' d Hgu _ Hin. destruct (Hent u None tk Hgu) as [E _]. rewrite E in Hin. destruct Hin.
+      - intros u tk Hgu. destruct (Hent u None tk Hgu) as [E _]. rewrite E. constructor.
+      - intros u o tk Hgu Hin. destruct (Hent u o tk Hgu) as [E _]. rewrite E in Hin. destruct Hin.
+      - intros u tk Hgu Hne. destruct (Hent u None tk Hgu) as [E _]. congruence.
+      - intros u o tk Hgu. destruct (Hent u o tk Hgu) as [_ E]. rewrite E. lia. }
+    apply (dl_run P HP h (eval p) n (spec_add (fun _ => None) h (eval p)) (fun _ => False) (start h s1)); [|exact Hn].
+    split; [exact HFL|]. cbn. split; [exact HD|exact I].
+  Qed.
+
+  (* Whenever the scheduler is about to flush a batch (the _execute pass has ended and the awaited task
+     is not computed), there is a set S of stuck futures containing the awaited task such that every
+     task in S has started, waits for an uncomputed member of S, and has no dependency outside S that is
+     not computed; the other members of S are uncomputed batch items. *)
+  Theorem flush_only_when_stuck_tree n :
+    no_unwind P n (start h s1) -> c_mode (run P n (start h s1)) = MAfterExec ->
+    computed h (c_st (run P n (start h s1))) = false ->
+    exists S : fid -> Prop, S h /\ forall d, S d -> S_ok S (c_st (run P n (start h s1))) d.
+  Proof.
+    intros Hn Hm Hc. destruct (dl_reach n Hn) as (spec & S & (_ & HDL)).
+    destruct (run P n (start h s1)) as [m fr s]. cbn [c_mode c_st] in *. subst m.
+    destruct HDL as (_ & [Hc'|HS]); [congruence|]. exists S. exact HS.
+  Qed.
+
+  (* consequence: everything reachable from the awaited task through uncompleted tasks is computed or stuck;
+     in particular no reachable task is unstarted or runnable *)
+  Theorem reachable_is_computed_or_stuck_tree n :
+    no_unwind P n (start h s1) -> c_mode (run P n (start h s1)) = MAfterExec ->
+    computed h (c_st (run P n (start h s1))) = false ->
+    forall d, reach (c_st (run P n (start h s1))) h d ->
+      computed d (c_st (run P n (start h s1))) = true \/
+      (exists kind idx key a, get d (c_st (run P n (start h s1))) = Some (mkFut None (KItem kind idx key a))) \/
+      (exists tk, get d (c_st (run P n (start h s1))) = Some (mkFut None (KTask tk)) /\ (1 <= tk_iter tk)%Z /\
+                  is_blocked tk (c_st (run P n (start h s1))) = true).
+  Proof.
+    intros Hn Hm Hc. destruct (flush_only_when_stuck_tree n Hn Hm Hc) as (S & HSh & HS).
+    set (s := c_st (run P n (start h s1))) in *.
+    assert (Hmem : forall d, reach s h d -> computed d s = true \/ S d).
+    { intros d Hr. induction Hr as [|y tk z Hr IH Hg Hin]; [right; exact HSh|].
+      destruct IH as [Hcy|HSy]; [unfold computed in Hcy; rewrite Hg in Hcy; discriminate|].
+      destruct (HS y HSy) as [(tk0 & Hg0 & _ & _ & Hall)|(kind & idx & key & a & Hg0)]; [|congruence].
+      rewrite Hg in Hg0. inversion Hg0; subst tk0. apply Hall. exact Hin. }
+    intros d Hr. destruct (Hmem d Hr) as [Hcd|HSd]; [left; exact Hcd|right].
+    destruct (HS d HSd) as [(tk & Hg & Hi & (e & He & HSe) & _)|Hitem]; [right|left; exact Hitem].
+    exists tk. split; [exact Hg|]. split; [exact Hi|]. unfold is_blocked. apply existsb_exists. exists e. split; [exact He|].
+    destruct (HS e HSe) as [(tke & Hge & _)|(kind & idx & key & a & Hge)]; unfold computed; rewrite Hge; reflexivity.
+  Qed.
+End C04_theorems.
